@@ -703,3 +703,77 @@ Proof.
   - exists (mklr [120] [] [1; 1] 2 1000). split; [right; left; reflexivity | reflexivity].
   - intros r' [<-|[<-|[]]] Ht; [discriminate Ht | discriminate].
 Qed.
+
+(* ------------------------------------------------------------------ *)
+(* C06: recovery after a process death                                    *)
+
+Lemma name_eqb_false_neq a b : name_eqb a b = false <-> a <> b.
+Proof.
+  split; intros Hx.
+  - intros E. subst. rewrite name_eqb_refl in Hx. discriminate.
+  - destruct (name_eqb a b) eqn:E; auto. apply name_eqb_eq in E. contradiction.
+Qed.
+
+Lemma alookup_aset_same {A} : forall (l : list (name * A)) k v, alookup k (aset k v l) = Some v.
+Proof.
+  induction l as [|[k0 v0] r IH]; intros k v; simpl.
+  - rewrite name_eqb_refl. reflexivity.
+  - destruct (name_eqb k0 k) eqn:E; simpl.
+    + rewrite name_eqb_refl. reflexivity.
+    + rewrite E. apply IH.
+Qed.
+
+Lemma alookup_aset_other {A} : forall (l : list (name * A)) k k' v,
+  k <> k' -> alookup k (aset k' v l) = alookup k l.
+Proof.
+  induction l as [|[k0 v0] r IH]; intros k k' v Hne; simpl.
+  - assert (E : name_eqb k' k = false) by (apply name_eqb_false_neq; auto). rewrite E. reflexivity.
+  - destruct (name_eqb k0 k') eqn:E; simpl.
+    + apply name_eqb_eq in E. subst k0.
+      assert (E2 : name_eqb k' k = false) by (apply name_eqb_false_neq; auto). rewrite E2. reflexivity.
+    + destruct (name_eqb k0 k); auto.
+Qed.
+
+Section Recovery.
+Variable H : list Z -> name.
+
+(* Scanning one companion during Recover never loses data: the receive log and
+   every validated (.wait) body are untouched, every complete (.full) body
+   stays, and a delivered file stays unless a lock-named leftover of the same
+   target is moved over it (the interrupted-move repair). *)
+Theorem recover_one_keeps_data : forall s fin val kv s' fin' val',
+  recover_one (s, fin, val) kv = (s', fin', val') ->
+  rlog s' = rlog s /\ waits s' = waits s /\
+  (forall n b, alookup n (fulls s) = Some b -> alookup n (fulls s') = Some b) /\
+  (forall t b, alookup t (finals s) = Some b ->
+               alookup t (finals s') = Some b \/ ahas t (flcks s) = true).
+Proof.
+  intros s fin val [n c] s' fin' val' R. unfold recover_one in R.
+  destruct (ahas n (waits s)).
+  { inversion R; subst; simpl. repeat split; auto. }
+  destruct (ahas n (fulls s)) eqn:Hf.
+  { inversion R; subst; simpl. repeat split; auto. }
+  destruct (alookup n (parts s)) as [sf0|] eqn:L.
+  - destruct (complete (c_parts c) (c_size c)); inversion R; subst; simpl; repeat split; auto.
+    intros n0 b Hl. rewrite alookup_aset_other; auto.
+    intros E. subst n0. unfold ahas in Hf. rewrite Hl in Hf. discriminate.
+  - set (tgt := match c_renamed c with [] => n | r => r end) in *.
+    destruct (alookup tgt (flcks s)) as [body|] eqn:Lk; inversion R; subst; simpl; repeat split; auto.
+    intros t b Hl. destruct (name_eqb tgt t) eqn:E.
+    + apply name_eqb_eq in E. subst t. right. unfold ahas. rewrite Lk. reflexivity.
+    + left. rewrite alookup_aset_other; auto. apply name_eqb_false_neq in E. auto.
+Qed.
+
+(* ... and a validated, logged file that a crash inside fileutil.Move left
+   under its lock name is put under its proper name (fix c24e975) *)
+Theorem recover_one_finishes_move : forall s fin val n c body,
+  ahas n (waits s) = false -> ahas n (fulls s) = false -> alookup n (parts s) = None ->
+  alookup (match c_renamed c with [] => n | r => r end) (flcks s) = Some body ->
+  alookup (match c_renamed c with [] => n | r => r end)
+          (finals (fst (fst (recover_one (s, fin, val) (n, c))))) = Some body.
+Proof.
+  intros s fin val n c body W F P L. unfold recover_one. rewrite W, F, P, L. simpl.
+  apply alookup_aset_same.
+Qed.
+
+End Recovery.
